@@ -12,10 +12,13 @@ def cfg : Cfg := Cfg.current
 
 /-! singleton -/
 
+/-- the printed trace entry of one schedule entry: the model's event (`sevent`, the events the
+    happens-before relation `HBefore` is defined over) by its name; a stutter entry is `blocked`
+    (waiting for the held mutex) or `-` (finished / not existing) -/
 def sEvent (n : Nat) (s : SState) (t : Nat) : String :=
-  if t < n then
-    if s.pc t == .done then "-" else if s.blocked t then "blocked" else (s.pc t).name
-  else "-"
+  match sevent n s t with
+  | some e => e.kind.name
+  | none => if t < n && s.pc t != .done then "blocked" else "-"
 
 def sIds (n : Nat) (s : SState) : List String :=
   (List.range n).map fun i =>
